@@ -3,6 +3,8 @@ package main
 import (
 	"bytes"
 	"context"
+	"crypto"
+	"crypto/x509"
 	"fmt"
 	"io"
 	"math/rand/v2"
@@ -216,6 +218,16 @@ func c19Device(ctx context.Context, cw *c19World, p c19Plan, delay func()) (out 
 	ov, err := cw.back.RemoveVoucher(ctx, d.Cred.GUID)
 	if err != nil {
 		out.phase, out.err = "resale", err.Error()
+		return
+	}
+	// the certificate the manufacturer issued in this device's DI session is this device's
+	if ov.CertChain == nil || len(*ov.CertChain) == 0 || (*ov.CertChain)[0] == nil {
+		out.phase, out.err = "DI", "voucher without device certificate"
+		return
+	}
+	leaf := (*x509.Certificate)((*ov.CertChain)[0])
+	if pk, ok := leaf.PublicKey.(interface{ Equal(crypto.PublicKey) bool }); !ok || !pk.Equal(d.Key.Public()) || leaf.Subject.CommonName != d.CommonName {
+		out.phase, out.err = "foreign-certificate", fmt.Sprintf("device asked for %q with its own key, certificate says %q (own key: %v)", d.CommonName, leaf.Subject.CommonName, ok && pk.Equal(d.Key.Public()))
 		return
 	}
 	ext, err := lab.ExtendTo(ov, p.kind, "mfg", "own1", p.enc == protocol.X5ChainKeyEnc)
